@@ -558,6 +558,68 @@ func muxBuildChecks(c *core.Ctx, chainRule, orderRule string) {
 		// and the element may be appended in iteration order instead of stored by index)
 		vf := se.vf
 		n := 0
+		// a helper that builds one element from one spec element (newMuxRuleWithPaths(parent, specRule):
+		// every return is newMuxRule(.., specRule, ..) with the helper's own parameter): the
+		// constructor it wraps and the index of that parameter
+		wrapperOf := func(fo *types.Func) (*types.Func, int) {
+			g := vf.fnOf[fo]
+			if g == nil || fo == ruleObj || fo == pathObj {
+				return nil, -1
+			}
+			fd, ok := g.Node.(*ast.FuncDecl)
+			if !ok {
+				return nil, -1
+			}
+			var params []types.Object
+			for _, fld := range fd.Type.Params.List {
+				if len(fld.Names) == 0 {
+					params = append(params, nil)
+				}
+				for _, nm := range fld.Names {
+					params = append(params, g.Info.Defs[nm])
+				}
+			}
+			var target *types.Func
+			idx := -1
+			for _, r := range vf.rets[fo] {
+				if len(r.Results) != 1 {
+					return nil, -1
+				}
+				inner, ok := vf.through(r.Results[0]).(*ast.CallExpr)
+				if !ok {
+					return nil, -1
+				}
+				io, _ := g.Callee(inner).(*types.Func)
+				if io == nil {
+					return nil, -1
+				}
+				si := -1
+				switch io.Origin() {
+				case ruleObj:
+					si = ruleSpecIdx
+				case pathObj:
+					si = pathSpecIdx
+				}
+				if si < 0 || si >= len(inner.Args) || (target != nil && target != io.Origin()) {
+					return nil, -1
+				}
+				id := muxIdentOf(inner.Args[si])
+				if id == nil {
+					return nil, -1
+				}
+				at := -1
+				for i, po := range params {
+					if po != nil && vf.obj(id) == po && len(vf.defs[po]) == 0 {
+						at = i
+					}
+				}
+				if at < 0 || (idx >= 0 && idx != at) {
+					return nil, -1
+				}
+				target, idx = io.Origin(), at
+			}
+			return target, idx
+		}
 		for _, g := range fns {
 			g := g
 			ast.Inspect(g.Body, func(x ast.Node) bool {
@@ -588,11 +650,16 @@ func muxBuildChecks(c *core.Ctx, chainRule, orderRule string) {
 				}
 				var specArg ast.Expr
 				role := ""
+				wTarget, wIdx := wrapperOf(fo.Origin())
 				switch {
 				case fo.Origin() == ruleObj && ruleSpecIdx >= 0 && ruleSpecIdx < len(call.Args):
 					specArg, role = call.Args[ruleSpecIdx], "rules"
 				case fo.Origin() == pathObj && pathSpecIdx >= 0 && pathSpecIdx < len(call.Args):
 					specArg, role = call.Args[pathSpecIdx], "paths"
+				case wTarget == ruleObj && wIdx < len(call.Args) && !call.Ellipsis.IsValid():
+					specArg, role = call.Args[wIdx], "rules"
+				case wTarget == pathObj && wIdx < len(call.Args) && !call.Ellipsis.IsValid():
+					specArg, role = call.Args[wIdx], "paths"
 				default:
 					return true
 				}
@@ -732,9 +799,25 @@ func muxChainCtor(c *core.Ctx, rule string, f *flow.Func) {
 			if inner, ok := vf.through(x).(*ast.CallExpr); ok && calleeIs(f, inner, "(*pkg/util/ipfilter.IPFilters).Filters") {
 				lenRenders[f.Render(e)] = true
 			}
+			// the filters collected in a slice before the chain is wrapped around them
+			if tv, ok := f.Info.Types[x]; ok && tv.Type != nil && strings.HasSuffix(tv.Type.String(), "[]*"+Mod+"pkg/util/ipfilter.IPFilter") {
+				lenRenders[f.Render(e)] = true
+			}
 		}
 		return true
 	})
+	isParentFilters := func(e ast.Expr) bool {
+		inner, ok := ast.Unparen(e).(*ast.CallExpr)
+		if !ok || !calleeIs(f, inner, "(*pkg/util/ipfilter.IPFilters).Filters") {
+			return false
+		}
+		sel, ok := ast.Unparen(inner.Fun).(*ast.SelectorExpr)
+		return ok && isParam(sel.X, parent)
+	}
+	isChildFilter := func(e ast.Expr) bool {
+		inner, ok := vf.through(e).(*ast.CallExpr)
+		return ok && calleeIs(f, inner, "pkg/util/ipfilter.New") && len(inner.Args) == 1 && isParam(inner.Args[0], child)
+	}
 	res := analyze(c, f, flow.Config{NoHavoc: true,
 		AfterAssume: func(st *flow.State, cond ast.Expr, outcome bool) {
 			// "the chain built so far is empty" as an event: with a named result the engine drops the
@@ -762,13 +845,33 @@ func muxChainCtor(c *core.Ctx, rule string, f *flow.Func) {
 			if calleeIs(f, call, "pkg/util/ipfilter.NewIPFilters") || calleeIs(f, call, "(*pkg/util/ipfilter.IPFilters).Append") {
 				st.Set("ev:empty", flow.Unknown)
 			}
+			if isParentFilters(call) {
+				st.Set("ev:gotParent", flow.True) // parent.Filters() read on this path
+			}
+			if b, isB := callee.(*types.Builtin); isB && b.Name() == "append" && len(call.Args) >= 2 {
+				st.Set("ev:empty", flow.Unknown)
+				for _, a := range call.Args[1:] {
+					if isChildFilter(a) {
+						st.Set("ev:appended", flow.True)
+					}
+				}
+			}
 			if calleeIs(f, call, "pkg/util/ipfilter.NewIPFilters") {
 				copied := false
 				if call.Ellipsis.IsValid() && len(call.Args) == 1 {
-					if inner, ok := vf.through(call.Args[0]).(*ast.CallExpr); ok && calleeIs(f, inner, "(*pkg/util/ipfilter.IPFilters).Filters") {
-						if sel, ok := ast.Unparen(inner.Fun).(*ast.SelectorExpr); ok && isParam(sel.X, parent) {
+					// NewIPFilters(parent.Filters()...) or NewIPFilters(xs...) with xs holding parent.Filters()
+					for _, v := range vf.flat(call.Args[0]) {
+						if v.root == nil && v.expr != nil && isParentFilters(v.expr) && st.Is("ev:gotParent", flow.True) {
 							copied = true
 						}
+					}
+					if isParentFilters(call.Args[0]) {
+						copied = true
+					}
+				}
+				for _, a := range call.Args {
+					if !call.Ellipsis.IsValid() && isChildFilter(a) {
+						st.Set("ev:appended", flow.True)
 					}
 				}
 				if copied {
@@ -777,10 +880,8 @@ func muxChainCtor(c *core.Ctx, rule string, f *flow.Func) {
 					st.Set("ev:copied", flow.False)
 				}
 			}
-			if calleeIs(f, call, "(*pkg/util/ipfilter.IPFilters).Append") && len(call.Args) == 1 {
-				if inner, ok := vf.through(call.Args[0]).(*ast.CallExpr); ok && calleeIs(f, inner, "pkg/util/ipfilter.New") && len(inner.Args) == 1 && isParam(inner.Args[0], child) {
-					st.Set("ev:appended", flow.True)
-				}
+			if calleeIs(f, call, "(*pkg/util/ipfilter.IPFilters).Append") && len(call.Args) == 1 && isChildFilter(call.Args[0]) {
+				st.Set("ev:appended", flow.True)
 			}
 		},
 	})
